@@ -257,7 +257,7 @@ _BRK = ("word wrap breaks the line between `Defaults` and `to`: extract_default 
         "the default is no longer found and the sentence stays in the prose - ")
 F("WRAP-break-inside-announcement-numpydoc-param", ALLP, _BRK + "numpydoc parameters",
   ["DefaultKept", "ProseKept.ann", "ProseKept.stop", "ConfigTransparent"],
-  obs=["absent", "none", "diff", True, ["dann", "def"], ["dann", "def", "typ"], ["dann", "def", "ret.def"], ["dann", "def", "ret.def", "typ"]],
+  obs=["absent", "none", "int0", "strEmpty", "float0", "boolF", "diff", True, ["dann", "def"], ["dann", "def", "typ"], ["dann", "def", "ret.def"], ["dann", "def", "ret.def", "typ"]],
   when={"k": "numpydoc", "wrap": True, "brk": True, "step": "parse"})
 F("WRAP-break-inside-announcement-rest-return", ALLP, _BRK + "ReST return entry",
   ["RetKept.def", "RetKept.ann", "RetKept.stop", "ConfigTransparent"],
@@ -284,6 +284,10 @@ FIXED += [
 ]
 
 FIXED += [
+    "fixed: property=C05 3f2428a parse.argparse_ast kept the line breaks of a word-wrapped help= text in the prose; the next docstring emitter wrote a broken entry",
+    "fixed: property=C18 d11fcc3 ReST parser kept newline + indentation inside a wrapped :type / :rtype and in the :returns: prose (a type with a newline broke the next emitter; a `Defaults` / `to` break hid the return default)",
+    "fixed: property=C18 b9d6a82 word wrap cut a word longer than the line in the middle (a long dotted type no longer parsed: SyntaxError)",
+    "fixed: property=C18 0aa1c98 numpydoc wrapped the `name : type` line of a long type; the unindented continuation was read as a new entry",
     "fixed: property=C18 1108a03 word wrap broke a hyphenated word after its hyphen (`ml-` / `prepare`); re-joined it came back as `ml- prepare`",
     "fixed: property=C18 2e569ff numpydoc: wrapped prose lost the indentation of its continuation lines; the parser read them as new entries",
     "fixed: property=C10 1f22a3d sync re-emitted and rewrote the file holding the source of truth (the truth was conformed to itself)",
